@@ -30,6 +30,7 @@ def client_case(draw):
     c["z_2d"] = (not c["jfa"]) and gen.boolean(draw)  # ISVMachine.enroll returns a (1, CF) array
     if gen.choice(draw, [False, False, False, True]):
         c["stats_layout"] = "lazy"  # probe statistics whose arrays are still Dask arrays (acc_stats of a Dask array)
+    c["ubm_seeded"] = gen.choice(draw, [False, False, True])  # the UBM is an ML machine warm-started from another GMM
     return c
 
 
